@@ -250,7 +250,7 @@ def run(ctx) -> None:
     _interval_new(ctx)
     _totals(ctx)
     ivm, dm = pmod("interval"), pmod("datetime")
-    sites = recon.sites_in(ivm, ["Interval.__new__"]) + recon.sites_in(dm, ["DateTime.__sub__", "DateTime.__rsub__"]) \
+    sites = recon.sites_in(ivm, ["Interval.__new__", "Interval.__init__"]) + recon.sites_in(dm, ["DateTime.__sub__", "DateTime.__rsub__"]) \
         + recon.sites_in(pmod("date"), ["Date.__sub__", "Date.diff"])
     for s in sites:
         recon.check_site(ctx, s)
